@@ -58,6 +58,10 @@ TEMPLATES = [
     ("derived-alias->qualifier", "insert into fin select {r}.x from (select x from src) {w}", "qualifier"),
     ("target->self-read", "insert into {w} select x from {r}", "selfloop"),
     # session knowledge is keyed by the table: two spellings are two tables iff their normalisations differ (provider in use)
+    # a whole dotted path inside ONE pair of backticks names the same table as the path quoted part by part
+    ("whole-path-in-backticks", "insert into `{wb}.Mid` select x from src; insert into fin select x from {r}.`Mid`", "mid-table"),
+    ("whole-path-in-backticks-3", "insert into `{wb}.Sch.Mid` select x from src; insert into fin select x from {r}.`Sch`.`Mid`", "mid-table"),
+    ("whole-path-in-backticks-read", "insert into {r}.`Mid` select x from src; insert into fin select x from `{wb}.Mid`", "mid-table"),
     ("created-table->star-read", "create table {w} as select x as col_w from src; create table {r} as select x as col_r from src; insert into fin select * from {w}", "session"),
 ]
 
@@ -113,7 +117,7 @@ def printed_ok(pos, w, o):
 
 def _eval(task):
     dialect, pos, tpl, kind, w, r = task
-    sql = tpl.format(w=w, r=r)
+    sql = tpl.format(w=w, r=r, wb=w.strip("`"))
     prov = None
     if kind == "session":
         from sqllineage.core.metadata.dummy import DummyMetaDataProvider
@@ -160,6 +164,31 @@ def model_checks(rep: Report):
                 rep.violation("model-equality-disagrees-with-normalisation", {"class": label, "a": a, "b": b}, {"equal": eq, "hash_equal": heq, "N_equal": same, "printed": [str(x), str(y)]})
             if str(x).split(".")[-1 if label in ("Schema", "Table", "Column") else 0] != N(a) and label in ("Schema", "Column"):
                 rep.violation("model-printed-name-is-not-normalised", {"class": label, "a": a}, {"printed": str(x), "expected": N(a)})
+    # equality, hash and printed name agree for columns whatever owns them (tables, sub-selects under one or two aliases)
+    from sqllineage.core.models import SubQuery
+
+    def owners():
+        yield lambda: None
+        for t in ("t1", "s1.t1", "T1"):
+            yield lambda t=t: Table(t)
+        for text in ("(select x from src)", "(select y from src)"):
+            for alias in ("a", "b", None):
+                yield lambda text=text, alias=alias: SubQuery(text, text, alias)
+
+    cols = []
+    for mk in owners():
+        for name in ("x", "X", "y"):
+            c = Column(name)
+            o = mk()
+            if o is not None:
+                c.parent = o
+            cols.append(c)
+    for x, y in itertools.product(cols, repeat=2):
+        n += 1
+        eq, heq, seq = x == y, hash(x) == hash(y), str(x) == str(y)
+        if (eq and not heq) or (eq and not seq) or (len({x, y}) == 1) != eq:
+            rep.violation("model-equality-disagrees-with-hash-or-printed-name", {"class": "Column", "a": str(x), "b": str(y), "owners": [str(x.parent), str(y.parent)]},
+                          {"equal": eq, "hash_equal": heq, "printed_equal": seq, "set_size": len({x, y})})
     return n
 
 
@@ -180,6 +209,8 @@ def run(tier: str, opts: dict) -> int:
         sp = spellings(d)
         for (pos, tpl, kind), w, r in itertools.product(TEMPLATES, sp, sp):
             if d == "bigquery" and pos in ("db.schema", "schema-of-db"):
+                continue
+            if pos.startswith("whole-path") and not (w.startswith("`") and "`{}`" in QUOTE[d]):
                 continue
             tasks.append((d, pos, tpl, kind, w, r))
     res = pmap(_eval, tasks, chunk=24)
@@ -223,7 +254,7 @@ def run(tier: str, opts: dict) -> int:
                 print("     ", s.split("|")[1:3], it)
         return 0
     for t in tasks[:: max(1, len(tasks) // 5)][:5]:
-        rep.sample({"dialect": t[0], "position": t[1], "sql": t[2].format(w=t[4], r=t[5])})
+        rep.sample({"dialect": t[0], "position": t[1], "sql": t[2].format(w=t[4], r=t[5], wb=t[4].strip("`"))})
     rep.coverage.update(
         evaluations=len(tasks) + n_model,
         distinct_nontrivial=len(nontrivial),
